@@ -324,6 +324,9 @@ structure Ctx where
   cdsNames : List String
   /-- `len(record)` when the record is circular -/
   origin : Option Int := none
+  /-- `record.original_id`: the identifier before pre-processing renamed a duplicate — never consulted
+      by any record guard (`record.id` only) -/
+  originalId : Option String := none
 deriving Repr, Inhabited
 
 structure NrpsPks where
@@ -598,17 +601,35 @@ structure GeneFn where
   product : Option String
 deriving DecidableEq, Repr, Inhabited
 
+/-- `GeneFunctionAnnotations`: the ordered annotations and the index `add` consults for duplicates
+    (`_by_function`, flattened; `_by_tool` is not read by the modelled code) -/
+structure GeneFns where
+  annotations : List GeneFn := []
+  byFunction : List GeneFn := []
+deriving DecidableEq, Repr, Inhabited
+
+/-- `GeneFunctionAnnotations.add`: an annotation equal to one in the index is not added again -/
+def GeneFns.add (g : GeneFns) (f : GeneFn) : GeneFns :=
+  if g.byFunction.contains f then g else ⟨g.annotations ++ [f], g.byFunction ++ [f]⟩
+/-- `GeneFunctionAnnotations.clear`: every container is reset -/
+def GeneFns.clear (_g : GeneFns) : GeneFns := ⟨[], []⟩
+/-- the index holds exactly the annotations -/
+def GeneFns.consistent (g : GeneFns) : Bool := g.byFunction == g.annotations
+
 /-- what `annotate` touches of a CDS: its `sec_met` qualifier and its gene functions -/
 structure CdsState where
   secmet : Option (List SDomain) := none
-  functions : List GeneFn := []
+  functions : GeneFns := {}
 deriving DecidableEq, Repr, Inhabited
+
+/-- `CDSFeature.strip_antismash_annotations` (what `main.read_data` does to every reloaded record):
+    an empty `sec_met` qualifier, gene functions cleared -/
+def CdsState.strip (st : CdsState) : CdsState := ⟨some [], st.functions.clear⟩
 
 /-- `SecMetQualifier.add_domains`: a domain whose name is already present is skipped -/
 def addDomains (existing new : List SDomain) : List SDomain :=
   new.foldl (fun acc d => if acc.any (·.name == d.name) then acc else acc ++ [d]) existing
-/-- `GeneFunctionAnnotations.add`: an identical annotation is not added twice -/
-def addFn (fs : List GeneFn) (f : GeneFn) : List GeneFn := if fs.contains f then fs else fs ++ [f]
+def addFn (fs : GeneFns) (f : GeneFn) : GeneFns := fs.add f
 
 /-- `CDSResults.annotate(tool)` (with the D51 repair: definition domains are visited sorted) -/
 def CdsRes.annotate (tool : String) (st : CdsState) (c : CdsRes) : CdsState :=
@@ -978,7 +999,7 @@ def origin (r : RecInfo) : Option Int := if r.circular then some r.length else n
 /-- `record.has_name` -/
 def hasName (r : RecInfo) (n : String) : Bool :=
   n == r.id || (match r.originalId with | some o => n == o | none => false)
-def ctx (r : RecInfo) : Ctx := ⟨r.id, r.cds.map (·.1), r.origin⟩
+def ctx (r : RecInfo) : Ctx := ⟨r.id, r.cds.map (·.1), r.origin, r.originalId⟩
 end RecInfo
 
 /-- the tool of command-line annotations -/
